@@ -1,5 +1,1144 @@
-From Coq Require Import List ZArith Bool Arith Lia.
-From MV Require Import Common.Num Pure.Collapse.
+(* C11 - proofs about the model in Pure/Collapse.v.  No axioms except the real-number ones (only in the *_R lemmas). *)
+From Coq Require Import List ZArith Bool Arith Lia Reals Lra.
+From MV Require Import Common.Num Common.Order Common.NumR Pure.Collapse.
 Import ListNotations.
+Open Scope nat_scope.
+
+(* ------------------------------------------------------------------ membership helpers *)
+Lemma memb_In i l : memb i l = true <-> In i l.
+Proof.
+  unfold memb. rewrite existsb_exists. split.
+  - intros [x [H1 H2]]. apply Nat.eqb_eq in H2. subst; auto.
+  - intros H. exists i. split; auto. apply Nat.eqb_refl.
+Qed.
+Lemma memb_false i l : memb i l = false <-> ~ In i l.
+Proof. rewrite <- memb_In. destruct (memb i l); intuition congruence. Qed.
+
+Lemma pair_eqb_eq p q : pair_eqb p q = true <-> p = q.
+Proof.
+  destruct p as [a b], q as [c d]; unfold pair_eqb; simpl.
+  rewrite andb_true_iff, !Nat.eqb_eq. split; [intros [? ?]; subst; auto | intros H; inversion H; auto].
+Qed.
+Lemma pmemb_In p l : pmemb p l = true <-> In p l.
+Proof.
+  unfold pmemb. rewrite existsb_exists. split.
+  - intros [x [H1 H2]]. apply pair_eqb_eq in H2. subst; auto.
+  - intros H. exists p. split; auto. apply pair_eqb_eq; auto.
+Qed.
+Lemma pmemb_false p l : pmemb p l = false <-> ~ In p l.
+Proof. rewrite <- pmemb_In. destruct (pmemb p l); intuition congruence. Qed.
+
+Lemma ppair_eqb_eq x y : ppair_eqb x y = true <-> x = y.
+Proof.
+  destruct x as [a p], y as [c q]; unfold ppair_eqb; simpl.
+  rewrite andb_true_iff, Nat.eqb_eq, pair_eqb_eq. split; [intros [? ?]; subst; auto | intros H; inversion H; auto].
+Qed.
+Lemma ppmemb_In e l : ppmemb e l = true <-> In e l \/ In (fst e, swap (snd e)) l.
+Proof.
+  unfold ppmemb. rewrite orb_true_iff, !existsb_exists. split.
+  - intros [[x [H1 H2]]|[x [H1 H2]]]; apply ppair_eqb_eq in H2; subst; auto.
+  - intros [H|H]; [left; exists e | right; exists (fst e, swap (snd e))]; split; auto; apply ppair_eqb_eq; auto.
+Qed.
+
+Lemma filter_nil_iff {A} (f : A -> bool) l : filter f l = [] <-> forall x, In x l -> f x = false.
+Proof.
+  induction l as [|a l IH]; simpl.
+  - split; auto. intros _ x [].
+  - destruct (f a) eqn:E.
+    + split; [discriminate|]. intros H. rewrite (H a) in E; auto; discriminate.
+    + rewrite IH. split; intros H x; [intros [<-|Hx]; auto | intros Hx; apply H; auto].
+Qed.
+
 Lemma extend_mask_In {A} (old new : list A) x : In x (extend_mask old new) <-> In x old \/ In x new.
 Proof. destruct old; simpl; [tauto|]. rewrite in_app_iff. simpl. tauto. Qed.
+
+(* ------------------------------------------------------------------ the look-back window (monitors._solutions) *)
+Lemma window_None {A} (l : list A) : window None l = l.
+Proof. reflexivity. Qed.
+Lemma window_zero {A} (l : list A) : window (Some 0%Z) l = l.
+Proof. reflexivity. Qed.
+Lemma window_pos {A} (g : nat) (l : list A) : 0 < g -> window (Some (Z.of_nat g)) l = skipn (length l - g) l.
+Proof.
+  intros Hg. unfold window, pyslice_from.
+  assert (H : (- Z.of_nat g <? 0)%Z = true) by (apply Z.ltb_lt; lia). rewrite H.
+  rewrite Z.opp_involutive, Nat2Z.id. reflexivity.
+Qed.
+Lemma window_longer {A} (g : nat) (l : list A) : length l <= g -> window (Some (Z.of_nat g)) l = l.
+Proof.
+  intros H. destruct g; [destruct l; simpl in *; [reflexivity|lia]|].
+  rewrite window_pos by lia. replace (length l - S g) with 0 by lia. reflexivity.
+Qed.
+Lemma in_skipn' {A} n (l : list A) x : In x (skipn n l) -> In x l.
+Proof. revert l; induction n as [|n IH]; intros [|a l]; simpl; auto. Qed.
+Lemma window_incl {A} g (l : list A) x : In x (window g l) -> In x l.
+Proof.
+  unfold window, pyslice_from. destruct g as [g|]; auto.
+  destruct (- g <? 0)%Z; intros H; eapply in_skipn'; eauto.
+Qed.
+
+(* ------------------------------------------------------------------ pairs_of = { (i,j) | i < j < n } *)
+Lemma pairs_of_In n i j : In (i, j) (pairs_of n) <-> i < j /\ j < n.
+Proof.
+  unfold pairs_of. rewrite in_flat_map. split.
+  - intros [a [Ha Hb]]. apply in_seq in Ha. apply in_map_iff in Hb. destruct Hb as [b [E Hb]].
+    inversion E; subst. apply in_seq in Hb. lia.
+  - intros [H1 H2]. exists i. split; [apply in_seq; lia|]. apply in_map_iff. exists j. split; auto. apply in_seq. lia.
+Qed.
+
+(* ================================================================== detectors: result = {candidates passing the test} \ mask *)
+Section Detect.
+  Variable N : Num.
+  Notation E := (T N).
+  Definition ncols (w : list (list E)) : nat := length (hd [] w).
+
+  Lemma filter_true {A} (l : list A) : filter (fun _ => true) l = l.
+  Proof. induction l; simpl; congruence. Qed.
+
+  (* masking is post-filtering: the result under a mask is the unmasked result minus the mask *)
+  Lemma collapse_at_masked hist tg tol g m :
+    collapse_at N hist tg tol g (MaSet m) =
+    match collapse_at N hist tg tol g MaNone with
+    | Ok r0 => Ok (filter (fun i => negb (memb i m)) r0)
+    | Err e => Err e
+    end.
+  Proof.
+    unfold collapse_at. destruct (window g hist) as [|r0 w]; auto.
+    match goal with |- (if ?c then _ else _) = _ => destruct c; auto end.
+    simpl. rewrite filter_true. reflexivity.
+  Qed.
+  Lemma collapse_at_none_spec hist tg tol g r0 :
+    collapse_at N hist tg tol g MaNone = Ok r0 ->
+    forall i, In i r0 <-> (i < ncols (window g hist) /\ test_at N tg tol (window g hist) i = true).
+  Proof.
+    unfold collapse_at. destruct (window g hist) as [|a w]; [discriminate|].
+    match goal with |- (if ?c then _ else _) = _ -> _ => destruct c; [discriminate|] end.
+    simpl. rewrite filter_true. intros H i. inversion H; subst. rewrite filter_In, in_seq. unfold ncols. simpl. intuition lia.
+  Qed.
+  Lemma collapse_at_valid hist tg tol g mask r :
+    collapse_at N hist tg tol g mask = Ok r ->
+    exists r0, collapse_at N hist tg tol g MaNone = Ok r0 /\ r = filter (fun i => negb (memb i (mask_at_list mask))) r0.
+  Proof.
+    destruct mask as [|m| |]; try (unfold collapse_at; discriminate).
+    - intros H. exists r. split; auto. simpl. rewrite filter_true. reflexivity.
+    - rewrite collapse_at_masked. destruct (collapse_at N hist tg tol g MaNone) as [r0|e]; [|discriminate].
+      intros H; inversion H; subst. exists r0. auto.
+  Qed.
+
+  Theorem collapse_at_is_definition hist tg tol g mask r :
+    collapse_at N hist tg tol g mask = Ok r ->
+    forall i, In i r <->
+      (i < ncols (window g hist) /\ test_at N tg tol (window g hist) i = true /\ ~ In i (mask_at_list mask)).
+  Proof.
+    intros H i. destruct (collapse_at_valid _ _ _ _ _ _ H) as [r0 [H0 ->]].
+    rewrite filter_In, (collapse_at_none_spec _ _ _ _ _ H0), negb_true_iff, memb_false. tauto.
+  Qed.
+
+  (* which inputs are rejected, and how *)
+  Theorem collapse_at_errors hist tg tol g mask :
+    match collapse_at N hist tg tol g mask with
+    | Err ErrType => mask = MaNotSet
+    | Err ErrValue => mask = MaBadElem \/ window g hist = [] \/
+                      (exists ts, tg = TList ts /\ length ts <> ncols (window g hist))
+    | Err ErrIndex => False
+    | Ok _ => (mask = MaNone \/ exists m, mask = MaSet m) /\ window g hist <> []
+    end.
+  Proof.
+    unfold collapse_at.
+    destruct mask; auto;
+    (destruct (window g hist) as [|r0 w] eqn:W; [auto|]);
+    (destruct tg as [|t|ts]; simpl;
+     [ split; [eauto|discriminate] | split; [eauto|discriminate] | ]);
+    (destruct (Nat.eqb (length ts) (length r0)) eqn:E; simpl;
+     [ split; [eauto|discriminate] | right; right; exists ts; split; auto; unfold ncols; simpl; apply Nat.eqb_neq; auto ]).
+  Qed.
+
+  Lemma collapse_at_own_mask_gen hist tg tol g mask r m' :
+    collapse_at N hist tg tol g mask = Ok r ->
+    (forall i, In i (mask_at_list mask) -> In i m') -> (forall i, In i r -> In i m') ->
+    collapse_at N hist tg tol g (MaSet m') = Ok [].
+  Proof.
+    intros H Hm Hr. destruct (collapse_at_valid _ _ _ _ _ _ H) as [r0 [H0 ->]].
+    rewrite collapse_at_masked, H0. f_equal. apply filter_nil_iff. intros x Hx.
+    rewrite negb_false_iff, memb_In.
+    destruct (memb x (mask_at_list mask)) eqn:M.
+    - apply memb_In in M. apply Hm. exact M.
+    - apply Hr. apply filter_In. split; [exact Hx | rewrite M; reflexivity].
+  Qed.
+
+  (* feeding a detector its own output as (additional) mask yields nothing new *)
+  Theorem collapse_at_idempotent_under_own_mask hist tg tol g mask r :
+    collapse_at N hist tg tol g mask = Ok r ->
+    collapse_at N hist tg tol g (MaSet (extend_mask (mask_at_list mask) r)) = Ok [].
+  Proof.
+    intros H. eapply collapse_at_own_mask_gen; eauto; intros i Hi; apply extend_mask_In; auto.
+  Qed.
+
+  (* whatever has been applied (is in the mask) is never reported again: any history, tolerance, window *)
+  Theorem collapse_at_never_reported_twice hist tg tol g m r applied :
+    collapse_at N hist tg tol g (MaSet m) = Ok r ->
+    (forall i, In i applied -> In i m) -> forall i, In i applied -> ~ In i r.
+  Proof.
+    intros H Hs i Hi Hr. eapply collapse_at_is_definition in H. apply H in Hr. simpl in Hr. intuition.
+  Qed.
+
+  (* ---- collapse_as *)
+  Lemma masked_as_true m p : masked_as m p = true <-> exists e, In e m /\ melem_hits p e = true.
+  Proof. unfold masked_as. apply existsb_exists. Qed.
+  Lemma melem_hits_pair a b : melem_hits (a, b) (MPair a b) = true /\ melem_hits (b, a) (MPair a b) = true.
+  Proof.
+    unfold melem_hits, pair_eqb, swap; simpl. rewrite !Nat.eqb_refl. simpl. split; auto. apply orb_true_r.
+  Qed.
+  (* the meaning of a mask: an int masks every pair containing it, a pair masks itself in both orientations *)
+  Lemma melem_hits_spec p e :
+    melem_hits p e = true <->
+    match e with MInt k => k = fst p \/ k = snd p | MPair a b => (a, b) = p \/ (a, b) = swap p end.
+  Proof.
+    destruct e; simpl; rewrite orb_true_iff; [rewrite !Nat.eqb_eq | rewrite !pair_eqb_eq]; tauto.
+  Qed.
+
+  Lemma masked_as_nil p : masked_as [] p = false.
+  Proof. reflexivity. Qed.
+  Lemma collapse_as_masked hist off tol g m :
+    collapse_as N hist off tol g (MsSet m) =
+    match collapse_as N hist off tol g MsNone with
+    | Ok r0 => Ok (filter (fun p => negb (masked_as m p)) r0)
+    | Err e => Err e
+    end.
+  Proof.
+    unfold collapse_as. destruct (window g hist) as [|r0 w]; auto. simpl. rewrite filter_true. reflexivity.
+  Qed.
+  Lemma collapse_as_none_spec hist off tol g r0 :
+    collapse_as N hist off tol g MsNone = Ok r0 ->
+    forall i j, In (i, j) r0 <-> (i < j /\ j < ncols (window g hist) /\ test_as N off tol (window g hist) (i, j) = true).
+  Proof.
+    unfold collapse_as. destruct (window g hist) as [|a w]; [discriminate|].
+    simpl. rewrite filter_true. intros H i j. inversion H; subst. rewrite filter_In, pairs_of_In. unfold ncols. simpl. tauto.
+  Qed.
+  Lemma collapse_as_valid hist off tol g mask r :
+    collapse_as N hist off tol g mask = Ok r ->
+    exists r0, collapse_as N hist off tol g MsNone = Ok r0 /\ r = filter (fun p => negb (masked_as (mask_as_list mask) p)) r0.
+  Proof.
+    destruct mask as [|m| |]; try (unfold collapse_as; discriminate).
+    - intros H. exists r. split; auto. simpl. rewrite filter_true. reflexivity.
+    - rewrite collapse_as_masked. destruct (collapse_as N hist off tol g MsNone) as [r0|e]; [|discriminate].
+      intros H; inversion H; subst. exists r0. auto.
+  Qed.
+
+  Theorem collapse_as_is_definition hist off tol g mask r :
+    collapse_as N hist off tol g mask = Ok r ->
+    forall i j, In (i, j) r <->
+      (i < j /\ j < ncols (window g hist) /\ test_as N off tol (window g hist) (i, j) = true /\
+       masked_as (mask_as_list mask) (i, j) = false).
+  Proof.
+    intros H i j. destruct (collapse_as_valid _ _ _ _ _ _ H) as [r0 [H0 ->]].
+    rewrite filter_In, (collapse_as_none_spec _ _ _ _ _ H0), negb_true_iff. tauto.
+  Qed.
+
+  Lemma masked_as_meaning (m : list melem) (p : nat * nat) :
+    masked_as m p = true <->
+    exists e, In e m /\ match e with MInt k => k = fst p \/ k = snd p | MPair a b => (a, b) = p \/ (a, b) = swap p end.
+  Proof.
+    rewrite masked_as_true. split; intros [e [A B]]; exists e; split; auto; apply melem_hits_spec; auto.
+  Qed.
+
+  Theorem collapse_as_errors hist off tol g mask :
+    match collapse_as N hist off tol g mask with
+    | Err ErrType => mask = MsNotSet
+    | Err ErrValue => mask = MsBadElem \/ window g hist = []
+    | Err ErrIndex => False
+    | Ok _ => (mask = MsNone \/ exists m, mask = MsSet m) /\ window g hist <> []
+    end.
+  Proof.
+    unfold collapse_as. destruct mask; auto;
+    (destruct (window g hist) as [|r0 w] eqn:W; [auto|]); split; eauto; discriminate.
+  Qed.
+
+  Lemma masked_as_of r p : In p r -> masked_as (as_mask_of r) p = true.
+  Proof.
+    intros H. apply masked_as_true. exists (MPair (fst p) (snd p)). split.
+    - unfold as_mask_of. apply in_map_iff. exists p; auto.
+    - destruct p as [a b]; simpl. apply (proj1 (melem_hits_pair a b)).
+  Qed.
+  Lemma masked_as_mono m m' p : (forall e, In e m -> In e m') -> masked_as m p = true -> masked_as m' p = true.
+  Proof. rewrite !masked_as_true. intros H [e [H1 H2]]. exists e; auto. Qed.
+
+  Theorem collapse_as_idempotent_under_own_mask hist off tol g mask r :
+    collapse_as N hist off tol g mask = Ok r ->
+    collapse_as N hist off tol g (MsSet (extend_mask (mask_as_list mask) (as_mask_of r))) = Ok [].
+  Proof.
+    intros H. destruct (collapse_as_valid _ _ _ _ _ _ H) as [r0 [H0 ->]].
+    rewrite collapse_as_masked, H0. f_equal. apply filter_nil_iff. intros x Hx. rewrite negb_false_iff.
+    destruct (masked_as (mask_as_list mask) x) eqn:M.
+    - eapply masked_as_mono; [|exact M]. intros e He. apply extend_mask_In. auto.
+    - eapply masked_as_mono; [intros e He; apply extend_mask_In; right; exact He|].
+      apply masked_as_of. apply filter_In. split; [exact Hx | rewrite M; reflexivity].
+  Qed.
+
+  (* a pair applied earlier (in either orientation, or through one of its indices) is never reported again *)
+  Theorem collapse_as_never_reported_twice hist off tol g m r a b :
+    collapse_as N hist off tol g (MsSet m) = Ok r ->
+    In (MPair a b) m \/ In (MInt a) m \/ In (MInt b) m -> ~ In (a, b) r /\ ~ In (b, a) r.
+  Proof.
+    intros H Hm.
+    assert (K : masked_as m (a, b) = true /\ masked_as m (b, a) = true).
+    { destruct Hm as [Hm|[Hm|Hm]]; split; apply masked_as_true;
+      [ exists (MPair a b) | exists (MPair a b) | exists (MInt a) | exists (MInt a) | exists (MInt b) | exists (MInt b) ];
+      (split; [exact Hm|]); try apply (proj1 (melem_hits_pair a b)); try apply (proj2 (melem_hits_pair a b));
+      simpl; rewrite Nat.eqb_refl; auto using orb_true_r. }
+    destruct K as [K1 K2].
+    split; intros Hr; apply (collapse_as_is_definition _ _ _ _ _ _ H) in Hr; simpl in Hr; destruct Hr as (_ & _ & _ & F); congruence.
+  Qed.
+
+  (* ---- measures *)
+  Lemma collapse_weight_masked hist npts tol g f m :
+    collapse_weight N hist npts tol g (MmMask f m) =
+    match collapse_weight N hist npts tol g MmNone with
+    | Ok (_, r0) => Ok (f, filter (fun e => negb (wmemb e m)) r0)
+    | Err e => Err e
+    end.
+  Proof.
+    unfold collapse_weight. destruct (measures N true npts hist g) as [[|m0 w]|e1]; auto.
+    simpl. rewrite filter_true. reflexivity.
+  Qed.
+  Lemma collapse_weight_none_spec hist npts tol g f r0 :
+    collapse_weight N hist npts tol g MmNone = Ok (f, r0) ->
+    f = FDict /\ exists m0 w, measures N true npts hist g = Ok (m0 :: w) /\
+      forall e, In e r0 <-> (In e (cells N m0) /\ test_weight N tol (m0 :: w) e = true).
+  Proof.
+    unfold collapse_weight. destruct (measures N true npts hist g) as [[|m0 w]|e1]; try discriminate.
+    simpl. rewrite filter_true. intros H. inversion H; subst. split; auto. exists m0, w. split; auto.
+    intros e. rewrite filter_In. tauto.
+  Qed.
+  Lemma collapse_weight_valid hist npts tol g mask f r :
+    collapse_weight N hist npts tol g mask = Ok (f, r) ->
+    exists r0, collapse_weight N hist npts tol g MmNone = Ok (FDict, r0) /\ f = mask_m_fmt mask /\
+               r = filter (fun e => negb (wmemb e (mask_m_list mask))) r0.
+  Proof.
+    destruct mask as [|fm m|e0]; try (unfold collapse_weight; discriminate).
+    - intros H. destruct (collapse_weight_none_spec _ _ _ _ _ _ H) as [-> _]. exists r. split; auto. split; auto.
+      simpl. rewrite filter_true. reflexivity.
+    - rewrite collapse_weight_masked. destruct (collapse_weight N hist npts tol g MmNone) as [[f0 r0]|e] eqn:E0; [|discriminate].
+      intros H; inversion H; subst. destruct (collapse_weight_none_spec _ _ _ _ _ _ E0) as [-> _]. exists r0. auto.
+  Qed.
+
+  Theorem collapse_weight_is_definition hist npts tol g mask f r :
+    collapse_weight N hist npts tol g mask = Ok (f, r) ->
+    exists m0 w, measures N true npts hist g = Ok (m0 :: w) /\ f = mask_m_fmt mask /\
+      forall e, In e r <-> (In e (cells N m0) /\ test_weight N tol (m0 :: w) e = true /\ ~ In e (mask_m_list mask)).
+  Proof.
+    intros H. destruct (collapse_weight_valid _ _ _ _ _ _ _ H) as [r0 [H0 [-> ->]]].
+    destruct (collapse_weight_none_spec _ _ _ _ _ _ H0) as [_ [m0 [w [Hm K]]]].
+    exists m0, w. split; auto. split; auto. intros e.
+    rewrite filter_In, K, negb_true_iff. unfold wmemb. rewrite pmemb_false. tauto.
+  Qed.
+
+  Theorem collapse_weight_idempotent_under_own_mask hist npts tol g mask f r :
+    collapse_weight N hist npts tol g mask = Ok (f, r) ->
+    collapse_weight N hist npts tol g (MmMask f (extend_mask (mask_m_list mask) r)) = Ok (f, []).
+  Proof.
+    intros H. destruct (collapse_weight_valid _ _ _ _ _ _ _ H) as [r0 [H0 [-> ->]]].
+    rewrite collapse_weight_masked, H0. f_equal. f_equal. apply filter_nil_iff. intros x Hx.
+    rewrite negb_false_iff. unfold wmemb. apply pmemb_In. apply extend_mask_In.
+    destruct (pmemb x (mask_m_list mask)) eqn:M.
+    - left. apply pmemb_In. exact M.
+    - right. apply filter_In. split; auto. unfold wmemb. rewrite M. reflexivity.
+  Qed.
+
+  Lemma collapse_position_masked hist npts tol g f m :
+    collapse_position N hist npts tol g (MmMask f m) =
+    match collapse_position N hist npts tol g MmNone with
+    | Ok (_, r0) => Ok (f, filter (fun e => negb (ppmemb e m)) r0)
+    | Err e => Err e
+    end.
+  Proof.
+    unfold collapse_position. destruct (measures N false npts hist g) as [[|m0 w]|e1]; auto.
+    simpl. rewrite filter_true. reflexivity.
+  Qed.
+  Lemma collapse_position_none_spec hist npts tol g f r0 :
+    collapse_position N hist npts tol g MmNone = Ok (f, r0) ->
+    f = FDict /\ exists m0 w, measures N false npts hist g = Ok (m0 :: w) /\
+      forall e, In e r0 <-> (In e (pcells N m0) /\ test_position N tol (m0 :: w) e = true).
+  Proof.
+    unfold collapse_position. destruct (measures N false npts hist g) as [[|m0 w]|e1]; try discriminate.
+    simpl. rewrite filter_true. intros H. inversion H; subst. split; auto. exists m0, w. split; auto.
+    intros e. rewrite filter_In. tauto.
+  Qed.
+  Lemma collapse_position_valid hist npts tol g mask f r :
+    collapse_position N hist npts tol g mask = Ok (f, r) ->
+    exists r0, collapse_position N hist npts tol g MmNone = Ok (FDict, r0) /\ f = mask_m_fmt mask /\
+               r = filter (fun e => negb (ppmemb e (mask_m_list mask))) r0.
+  Proof.
+    destruct mask as [|fm m|e0]; try (unfold collapse_position; discriminate).
+    - intros H. destruct (collapse_position_none_spec _ _ _ _ _ _ H) as [-> _]. exists r. split; auto. split; auto.
+      simpl. rewrite filter_true. reflexivity.
+    - rewrite collapse_position_masked. destruct (collapse_position N hist npts tol g MmNone) as [[f0 r0]|e] eqn:E0; [|discriminate].
+      intros H; inversion H; subst. destruct (collapse_position_none_spec _ _ _ _ _ _ E0) as [-> _]. exists r0. auto.
+  Qed.
+  Lemma ppmemb_false e l : ppmemb e l = false <-> ~ In e l /\ ~ In (fst e, swap (snd e)) l.
+  Proof. pose proof (ppmemb_In e l). destruct (ppmemb e l); intuition congruence. Qed.
+
+  Theorem collapse_position_is_definition hist npts tol g mask f r :
+    collapse_position N hist npts tol g mask = Ok (f, r) ->
+    exists m0 w, measures N false npts hist g = Ok (m0 :: w) /\ f = mask_m_fmt mask /\
+      forall e, In e r <-> (In e (pcells N m0) /\ test_position N tol (m0 :: w) e = true /\
+                            ~ In e (mask_m_list mask) /\ ~ In (fst e, swap (snd e)) (mask_m_list mask)).
+  Proof.
+    intros H. destruct (collapse_position_valid _ _ _ _ _ _ _ H) as [r0 [H0 [-> ->]]].
+    destruct (collapse_position_none_spec _ _ _ _ _ _ H0) as [_ [m0 [w [Hm K]]]].
+    exists m0, w. split; auto. split; auto. intros e.
+    rewrite filter_In, K, negb_true_iff, ppmemb_false. tauto.
+  Qed.
+
+  Theorem collapse_position_idempotent_under_own_mask hist npts tol g mask f r :
+    collapse_position N hist npts tol g mask = Ok (f, r) ->
+    collapse_position N hist npts tol g (MmMask f (extend_mask (mask_m_list mask) r)) = Ok (f, []).
+  Proof.
+    intros H. destruct (collapse_position_valid _ _ _ _ _ _ _ H) as [r0 [H0 [-> ->]]].
+    rewrite collapse_position_masked, H0. f_equal. f_equal. apply filter_nil_iff. intros x Hx.
+    rewrite negb_false_iff.
+    destruct (ppmemb x (mask_m_list mask)) eqn:M.
+    - apply ppmemb_In. apply ppmemb_In in M. destruct M as [M|M]; [left|right]; apply extend_mask_In; left; exact M.
+    - apply ppmemb_In. left. apply extend_mask_In. right. apply filter_In. split; auto. rewrite M. reflexivity.
+  Qed.
+
+  (* ---- termination wrappers: a report is exactly a non-empty detector result, only after the look-back is filled *)
+  Theorem term_at_reports lg hist tg tol g mask r :
+    term_at N lg hist tg tol g mask = Ok (Some r) ->
+    r <> [] /\ collapse_at N hist tg tol g mask = Ok r /\ exists gz, g = Some gz /\ (gz < Z.of_nat lg)%Z.
+  Proof.
+    unfold term_at, term_guard. destruct (Nat.eqb lg 0); [discriminate|].
+    destruct g as [gz|]; [|discriminate]. destruct (Z.of_nat lg <=? gz)%Z eqn:L; [discriminate|].
+    destruct (collapse_at N hist tg tol (Some gz) mask) as [[|a l]|e]; try discriminate.
+    intros H; inversion H; subst. split; [discriminate|]. split; auto. exists gz. split; auto. apply Z.leb_gt in L. lia.
+  Qed.
+  Theorem term_as_reports lg hist off tol g mask r :
+    term_as N lg hist off tol g mask = Ok (Some r) ->
+    r <> [] /\ collapse_as N hist off tol g mask = Ok r /\ exists gz, g = Some gz /\ (gz < Z.of_nat lg)%Z.
+  Proof.
+    unfold term_as, term_guard. destruct (Nat.eqb lg 0); [discriminate|].
+    destruct g as [gz|]; [|discriminate]. destruct (Z.of_nat lg <=? gz)%Z eqn:L; [discriminate|].
+    destruct (collapse_as N hist off tol (Some gz) mask) as [[|a l]|e]; try discriminate.
+    intros H; inversion H; subst. split; [discriminate|]. split; auto. exists gz. split; auto. apply Z.leb_gt in L. lia.
+  Qed.
+End Detect.
+
+(* ================================================================== what the tolerance tests mean *)
+Section OrderFacts.
+  Variable N : Num.
+  Notation E := (T N).
+  Hypothesis sw : StrictWeak E (ltb N).
+  Hypothesis leb_def : forall x y, Num.leb N x y = negb (ltb N y x).
+  Definition le (x y : E) : Prop := Num.leb N x y = true.
+
+  Lemma le_refl x : le x x.
+  Proof. unfold le. rewrite leb_def, (sw_irrefl _ _ sw). reflexivity. Qed.
+  Lemma le_trans x y z : le x y -> le y z -> le x z.
+  Proof. unfold le. rewrite !leb_def. apply (leb_trans _ _ sw). Qed.
+  Lemma lt_le x y : ltb N x y = true -> le x y.
+  Proof. unfold le. rewrite leb_def. apply (ltb_leb _ _ sw). Qed.
+
+  Lemma nmax_ub_l x y : le x (nmax N x y).
+  Proof. unfold nmax. destruct (ltb N x y) eqn:L; [apply lt_le; auto | apply le_refl]. Qed.
+  Lemma nmax_ub_r x y : le y (nmax N x y).
+  Proof. unfold nmax. destruct (ltb N x y) eqn:L; [apply le_refl | unfold le; rewrite leb_def, L; reflexivity]. Qed.
+  Lemma nmax_cases x y : nmax N x y = x \/ nmax N x y = y.
+  Proof. unfold nmax. destruct (ltb N x y); auto. Qed.
+  Lemma nmin_lb_l x y : le (nmin N x y) x.
+  Proof. unfold nmin. destruct (ltb N y x) eqn:L; [apply lt_le; auto | apply le_refl]. Qed.
+  Lemma nmin_lb_r x y : le (nmin N x y) y.
+  Proof. unfold nmin. destruct (ltb N y x) eqn:L; [apply le_refl | unfold le; rewrite leb_def, L; reflexivity]. Qed.
+  Lemma nmin_cases x y : nmin N x y = x \/ nmin N x y = y.
+  Proof. unfold nmin. destruct (ltb N y x); auto. Qed.
+
+  Lemma fold_max_spec l : forall a, In (fold_left (nmax N) l a) (a :: l) /\ forall x, In x (a :: l) -> le x (fold_left (nmax N) l a).
+  Proof.
+    induction l as [|b l IH]; intros a; simpl.
+    - split; auto. intros x [<-|[]]. apply le_refl.
+    - destruct (IH (nmax N a b)) as [I1 I2]. split.
+      + destruct I1 as [I1|I1]; [|right; right; exact I1].
+        rewrite <- I1. destruct (nmax_cases a b) as [C|C]; rewrite C; [left|right; left]; reflexivity.
+      + intros x [<-|[<-|Hx]].
+        * eapply le_trans; [apply nmax_ub_l | apply I2; left; reflexivity].
+        * eapply le_trans; [apply nmax_ub_r | apply I2; left; reflexivity].
+        * apply I2. right; auto.
+  Qed.
+  Lemma fold_min_spec l : forall a, In (fold_left (nmin N) l a) (a :: l) /\ forall x, In x (a :: l) -> le (fold_left (nmin N) l a) x.
+  Proof.
+    induction l as [|b l IH]; intros a; simpl.
+    - split; auto. intros x [<-|[]]. apply le_refl.
+    - destruct (IH (nmin N a b)) as [I1 I2]. split.
+      + destruct I1 as [I1|I1]; [|right; right; exact I1].
+        rewrite <- I1. destruct (nmin_cases a b) as [C|C]; rewrite C; [left|right; left]; reflexivity.
+      + intros x [<-|[<-|Hx]].
+        * eapply le_trans; [apply I2; left; reflexivity | apply nmin_lb_l].
+        * eapply le_trans; [apply I2; left; reflexivity | apply nmin_lb_r].
+        * apply I2. right; auto.
+  Qed.
+
+  Lemma maxl_In d l : l <> [] -> In (maxl N d l) l.
+  Proof. destruct l as [|a l]; [congruence|]. intros _. apply (fold_max_spec l a). Qed.
+  Lemma maxl_ub d l x : In x l -> le x (maxl N d l).
+  Proof. destruct l as [|a l]; [intros []|]. apply (fold_max_spec l a). Qed.
+  Lemma minl_In d l : l <> [] -> In (minl N d l) l.
+  Proof. destruct l as [|a l]; [congruence|]. intros _. apply (fold_min_spec l a). Qed.
+  Lemma minl_lb d l x : In x l -> le (minl N d l) x.
+  Proof. destruct l as [|a l]; [intros []|]. apply (fold_min_spec l a). Qed.
+
+  (* max over the window <= tolerance  <->  every generation in the window is within tolerance *)
+  Lemma maxl_le_iff d l t : l <> [] -> (le (maxl N d l) t <-> forall x, In x l -> le x t).
+  Proof.
+    intros Hl. split.
+    - intros H x Hx. eapply le_trans; [apply maxl_ub; eauto | exact H].
+    - intros H. apply H. apply maxl_In; auto.
+  Qed.
+
+  Lemma map_nonempty {A B} (f : A -> B) l : l <> [] -> map f l <> [].
+  Proof. destruct l; simpl; congruence. Qed.
+
+  Theorem test_at_scalar_meaning t tol w i : w <> [] ->
+    (test_at N (TScalar t) tol w i = true <-> forall r, In r w -> le (abs N (sub N (nth i r (zero N)) t)) tol).
+  Proof.
+    intros Hw. unfold test_at, change_at, col. fold (le (maxl N (zero N) (map (fun x => abs N (sub N x t)) (map (fun r => nth i r (zero N)) w))) tol).
+    rewrite maxl_le_iff by (apply map_nonempty, map_nonempty; auto). rewrite map_map. split.
+    - intros H r Hr. apply H. apply in_map_iff. exists r; auto.
+    - intros H x Hx. apply in_map_iff in Hx. destruct Hx as [r [<- Hr]]. auto.
+  Qed.
+  Theorem test_at_list_meaning ts tol w i : w <> [] ->
+    (test_at N (TList ts) tol w i = true <-> forall r, In r w -> le (abs N (sub N (nth i r (zero N)) (nth i ts (zero N)))) tol).
+  Proof.
+    intros Hw. unfold test_at, change_at, col.
+    fold (le (maxl N (zero N) (map (fun x => abs N (sub N x (nth i ts (zero N)))) (map (fun r => nth i r (zero N)) w))) tol).
+    rewrite maxl_le_iff by (apply map_nonempty, map_nonempty; auto). rewrite map_map. split.
+    - intros H r Hr. apply H. apply in_map_iff. exists r; auto.
+    - intros H x Hx. apply in_map_iff in Hx. destruct Hx as [r [<- Hr]]. auto.
+  Qed.
+  Theorem test_as_tied_meaning tol w p : w <> [] ->
+    (test_as N false tol w p = true <-> forall r, In r w -> le (dist N p r) tol).
+  Proof.
+    intros Hw. unfold test_as, change_as. fold (le (maxl N (zero N) (map (dist N p) w)) tol).
+    rewrite maxl_le_iff by (apply map_nonempty; auto). split.
+    - intros H r Hr. apply H. apply in_map. auto.
+    - intros H x Hx. apply in_map_iff in Hx. destruct Hx as [r [<- Hr]]. auto.
+  Qed.
+  Theorem test_weight_meaning tol w e : w <> [] ->
+    (test_weight N tol w e = true <-> forall ms, In ms w -> le (nth (snd e) (nth (fst e) ms []) (zero N)) tol).
+  Proof.
+    intros Hw. unfold test_weight. fold (le (maxl N (zero N) (map (fun ms => nth (snd e) (nth (fst e) ms []) (zero N)) w)) tol).
+    rewrite maxl_le_iff by (apply map_nonempty; auto). split.
+    - intros H r Hr. apply H. apply in_map_iff. exists r; auto.
+    - intros H x Hx. apply in_map_iff in Hx. destruct Hx as [r [<- Hr]]. auto.
+  Qed.
+  Theorem test_position_meaning tol w e : w <> [] ->
+    (test_position N tol w e = true <-> forall ms, In ms w -> le (dist N (snd e) (nth (fst e) ms [])) tol).
+  Proof.
+    intros Hw. unfold test_position. fold (le (maxl N (zero N) (map (fun ms => dist N (snd e) (nth (fst e) ms [])) w)) tol).
+    rewrite maxl_le_iff by (apply map_nonempty; auto). split.
+    - intros H r Hr. apply H. apply in_map_iff. exists r; auto.
+    - intros H x Hx. apply in_map_iff in Hx. destruct Hx as [r [<- Hr]]. auto.
+  Qed.
+End OrderFacts.
+
+(* the reals satisfy the order hypotheses; the spread (ptp) tests need arithmetic and are stated over R *)
+Lemma NumR_sw : StrictWeak R (ltb NumR).
+Proof.
+  constructor; simpl.
+  - intros x. apply Rltb_false. lra.
+  - intros x y z A B. apply Rltb_true in A. apply Rltb_true in B. apply Rltb_true. lra.
+  - intros x y z A B. apply Rltb_false in A. apply Rltb_false in B. apply Rltb_false. lra.
+Qed.
+Lemma NumR_leb_def : forall x y, Num.leb NumR x y = negb (ltb NumR y x).
+Proof.
+  intros x y. simpl. destruct (Rltb y x) eqn:A; simpl.
+  - apply Rltb_true in A. apply Rleb_false. lra.
+  - apply Rltb_false in A. apply Rleb_true. lra.
+Qed.
+
+Lemma ptp_R_meaning (l : list R) (tol : R) : l <> [] ->
+  (Num.leb NumR (ptp NumR l) tol = true <-> forall a b, In a l -> In b l -> (a - b <= tol)%R).
+Proof.
+  intros Hl. change (Num.leb NumR (ptp NumR l) tol) with (Rleb (ptp NumR l) tol).
+  unfold ptp. simpl. rewrite Rleb_true. split.
+  - intros H a b Ha Hb.
+    pose proof (maxl_ub NumR NumR_sw NumR_leb_def 0%R l a Ha) as A.
+    pose proof (minl_lb NumR NumR_sw NumR_leb_def 0%R l b Hb) as B.
+    unfold le in A, B. simpl in A, B. apply Rleb_true in A. apply Rleb_true in B. simpl in *. lra.
+  - intros H. apply H; [apply (maxl_In NumR NumR_sw NumR_leb_def) | apply (minl_In NumR NumR_sw NumR_leb_def)]; auto.
+Qed.
+
+(* target=None: max(param[i]) - min(param[i]) <= tolerance over the window <-> no two generations differ by more *)
+Theorem test_at_none_meaning_R (tol : R) (w : list (list R)) i : w <> [] ->
+  (test_at NumR TNone tol w i = true <-> forall r s, In r w -> In s w -> (nth i r 0 - nth i s 0 <= tol)%R).
+Proof.
+  intros Hw. unfold test_at, change_at. rewrite ptp_R_meaning by (unfold col; apply map_nonempty; auto).
+  unfold col. split.
+  - intros H r s Hr Hs. apply H; apply in_map_iff; eauto.
+  - intros H a b Ha Hb. apply in_map_iff in Ha. apply in_map_iff in Hb.
+    destruct Ha as [r [<- Hr]]. destruct Hb as [s [<- Hs]]. simpl. auto.
+Qed.
+(* offset=True: the spread of the pairwise DISTANCE |x_i - x_j| over the window is within tolerance (as written: of
+   the absolute distance, so a difference that flips sign with constant magnitude also counts) *)
+Theorem test_as_offset_meaning_R (tol : R) (w : list (list R)) p : w <> [] ->
+  (test_as NumR true tol w p = true <-> forall r s, In r w -> In s w -> (dist NumR p r - dist NumR p s <= tol)%R).
+Proof.
+  intros Hw. unfold test_as, change_as. rewrite ptp_R_meaning by (apply map_nonempty; auto). split.
+  - intros H r s Hr Hs. apply H; apply in_map; auto.
+  - intros H a b Ha Hb. apply in_map_iff in Ha. apply in_map_iff in Hb.
+    destruct Ha as [r [<- Hr]]. destruct Hb as [s [<- Hs]]. auto.
+Qed.
+
+(* ================================================================== mask._update_masks over a termination tree *)
+Section Tree.
+  Variable M : Type.
+  Variable ext : M -> M -> M.
+
+  Fixpoint cond_ind' (P : cond M -> Prop)
+    (HL : forall d h m, P (Leaf d h m))
+    (HN : forall cs, Forall P cs -> P (Node cs)) (c : cond M) : P c :=
+    match c with
+    | Leaf d h m => HL d h m
+    | Node cs => HN cs ((fix go (l : list (cond M)) : Forall P l :=
+                           match l with [] => Forall_nil P | x :: r => Forall_cons x (cond_ind' P HL HN x) (go r) end) cs)
+    end.
+
+  (* per leaf: the doc is kept, the mask is either untouched or extended by exactly the applied collapse *)
+  Definition leaf_step (new : M) (a b : String.string * M) : Prop :=
+    fst b = fst a /\ (snd b = snd a \/ snd b = ext (snd a) new).
+
+  Lemma update_leaf_step c new : Forall2 (leaf_step new) (leaves c) (leaves (update_leaf ext c new)).
+  Proof.
+    destruct c as [d h m|cs]; simpl.
+    - destruct h; simpl; constructor; try constructor; unfold leaf_step; simpl; auto.
+    - induction (flat_map leaves cs); constructor; auto. unfold leaf_step; auto.
+  Qed.
+
+  Theorem update_masks_grows c kind new :
+    Forall2 (leaf_step new) (leaves c) (leaves (update_masks ext c kind new)).
+  Proof.
+    induction c as [d h m|cs IH] using cond_ind'.
+    - apply (update_leaf_step (Leaf d h m)).
+    - simpl. induction cs as [|t cs IHcs]; simpl; [constructor|].
+      inversion IH; subst. apply Forall2_app; [|apply IHcs; auto].
+      destruct t as [d h m|cs'].
+      + destruct (String.prefix kind d).
+        * apply (update_leaf_step (Leaf d h m)).
+        * simpl. constructor; [unfold leaf_step; auto|constructor].
+      + assumption.
+  Qed.
+
+  (* the leaf that reported (doc starts with the key, carries a mask) inside an Or(...) IS extended *)
+  Theorem update_masks_hits cs kind new d m :
+    In (Leaf d true m) cs -> String.prefix kind d = true ->
+    In (d, ext m new) (leaves (update_masks ext (Node cs) kind new)).
+  Proof.
+    intros Hin Hp. simpl. apply in_flat_map. exists (Leaf d true (ext m new)). split; [|simpl; auto].
+    apply in_map_iff. exists (Leaf d true m). rewrite Hp. simpl. auto.
+  Qed.
+  Theorem update_masks_bare d m kind new :
+    leaves (update_masks ext (Leaf d true m) kind new) = [(d, ext m new)].
+  Proof. reflexivity. Qed.
+End Tree.
+
+Lemma NoDup_app_r' {A} (l l' : list A) : NoDup (l ++ l') -> NoDup l'.
+Proof. induction l; simpl; auto. intros H; inversion H; auto. Qed.
+Lemma NoDup_app_l' {A} (l l' : list A) : NoDup (l ++ l') -> NoDup l.
+Proof.
+  induction l as [|a l IH]; simpl; [constructor|]. intros H; inversion H; subst. constructor; auto.
+  intros Hi. apply H2. apply in_or_app; auto.
+Qed.
+Lemma NoDup_app_disj {A} (l l' : list A) x : NoDup (l ++ l') -> In x l -> ~ In x l'.
+Proof.
+  induction l as [|a l IH]; simpl; intros ND Hi Hin; [destruct Hi|]. inversion ND; subst. destruct Hi as [<-|Hi].
+  - apply H1. apply in_or_app; auto.
+  - eapply IH; eauto.
+Qed.
+
+(* ================================================================== impose_at: exact, and framed *)
+Section ImposeFacts.
+  Variable N : Num.
+  Notation E := (T N).
+
+  Lemma set_nth_length i v (x : list E) : length (set_nth N i v x) = length x.
+  Proof. revert i; induction x as [|a x IH]; intros [|i]; simpl; auto. Qed.
+  Lemma nth_set_nth_eq i v (x : list E) d : i < length x -> nth i (set_nth N i v x) d = v.
+  Proof. revert i; induction x as [|a x IH]; intros [|i]; simpl; intros H; try lia; auto. apply IH. lia. Qed.
+  Lemma nth_set_nth_neq i j v (x : list E) d : i <> j -> nth j (set_nth N i v x) d = nth j x d.
+  Proof. revert i j; induction x as [|a x IH]; intros [|i] [|j]; simpl; intros H; try congruence; auto. Qed.
+
+  Lemma fold_set_scalar t (l : list nat) : forall (x : list E) d,
+    let y := fold_left (fun y i => set_nth N i t y) l x in
+    length y = length x /\
+    forall i, (In i l -> i < length x -> nth i y d = t) /\ (~ In i l -> nth i y d = nth i x d).
+  Proof.
+    induction l as [|a l IH]; intros x d; simpl.
+    - split; auto. intros i. split; [intros []|auto].
+    - destruct (IH (set_nth N a t x) d) as [L K]. rewrite set_nth_length in L. split; auto.
+      intros i. destruct (K i) as [K1 K2]. rewrite set_nth_length in K1. split.
+      + intros [<-|Hi] Hlt.
+        * destruct (in_dec Nat.eq_dec a l) as [I|I]; [apply K1; auto|]. rewrite K2 by auto. apply nth_set_nth_eq; auto.
+        * apply K1; auto.
+      + intros Hn. rewrite K2 by tauto. apply nth_set_nth_neq. intros ->. apply Hn; auto.
+  Qed.
+
+  (* scalar target: every addressed in-range coordinate is exactly the target, every other coordinate is untouched *)
+  Theorem impose_at_scalar_exact idx t (x : list E) d :
+    exists y, impose_at N idx (AtScalar t) x = Ok y /\ length y = length x /\
+      forall i, (In i idx -> i < length x -> nth i y d = t) /\ (~ In i idx -> nth i y d = nth i x d).
+  Proof.
+    unfold impose_at. eexists. split; [reflexivity|].
+    destruct (fold_set_scalar t (filter (fun i => Nat.ltb i (length x)) idx) x d) as [L K]. split; auto.
+    intros i. destruct (K i) as [K1 K2]. split.
+    - intros Hi Hlt. apply K1; auto. apply filter_In. split; auto. apply Nat.ltb_lt; auto.
+    - intros Hn. apply K2. rewrite filter_In. tauto.
+  Qed.
+
+  Lemma fold_set_list (l : list (nat * E)) : forall (x : list E) d,
+    NoDup (map fst l) -> (forall p, In p l -> fst p < length x) ->
+    let y := fold_left (fun y p => set_nth N (fst p) (snd p) y) l x in
+    length y = length x /\
+    (forall p, In p l -> nth (fst p) y d = snd p) /\ (forall i, ~ In i (map fst l) -> nth i y d = nth i x d).
+  Proof.
+    induction l as [|[a v] l IH]; intros x d ND R; simpl.
+    - split; auto. split; [intros p []|auto].
+    - inversion ND; subst.
+      destruct (IH (set_nth N a v x) d H2) as [L [K1 K2]].
+      { intros p Hp. rewrite set_nth_length. apply R. right; auto. }
+      rewrite set_nth_length in L. split; auto. split.
+      + intros p [<-|Hp]; simpl; [|apply K1; auto].
+        rewrite K2 by auto. apply nth_set_nth_eq. apply (R (a, v)). left; auto.
+      + intros i Hn. rewrite K2 by (simpl in Hn; tauto). apply nth_set_nth_neq. simpl in Hn. intros ->. tauto.
+  Qed.
+
+  (* list target of the right length (one value per kept index, in index order) *)
+  Theorem impose_at_list_exact idx ts (x : list E) d :
+    NoDup idx -> length ts = length (filter (fun i => Nat.ltb i (length x)) idx) ->
+    exists y, impose_at N idx (AtList ts) x = Ok y /\ length y = length x /\
+      (forall k, k < length ts -> nth (nth k (filter (fun i => Nat.ltb i (length x)) idx) 0) y d = nth k ts d) /\
+      (forall i, ~ In i idx -> nth i y d = nth i x d).
+  Proof.
+    intros ND HL. unfold impose_at. rewrite HL, Nat.eqb_refl. eexists. split; [reflexivity|].
+    set (kept := filter (fun i => Nat.ltb i (length x)) idx) in *.
+    assert (NDk : NoDup kept) by (apply NoDup_filter; auto).
+    assert (Hfst : map fst (combine kept ts) = kept).
+    { clear -HL. revert ts HL. induction kept as [|a k IH]; intros [|t ts] H; simpl in *; try lia; auto. f_equal. apply IH. lia. }
+    destruct (fold_set_list (combine kept ts) x d) as [L [K1 K2]].
+    { rewrite Hfst; auto. }
+    { intros [p1 p2] Hp. apply in_combine_l in Hp. simpl. apply filter_In in Hp. destruct Hp as [_ Hp]. apply Nat.ltb_lt in Hp; auto. }
+    split; auto. split.
+    - intros k Hk.
+      assert (Hin : In (nth k kept 0, nth k ts d) (combine kept ts)).
+      { rewrite <- (combine_nth kept ts k 0 d) by lia. apply nth_In. rewrite combine_length. lia. }
+      apply (K1 _ Hin).
+    - intros i Hn. apply K2. rewrite Hfst. unfold kept. rewrite filter_In. tauto.
+  Qed.
+
+  (* the error branch of the real code (numpy shape mismatch): a list target whose length is neither the number of kept
+     indices nor 1 is rejected -- this is what AbstractSolver.Collapse runs into with CollapseAt(target=list) *)
+  Theorem impose_at_list_mismatch idx ts (x : list E) :
+    length ts <> length (filter (fun i => Nat.ltb i (length x)) idx) -> length ts <> 1 ->
+    impose_at N idx (AtList ts) x = Err ErrValue.
+  Proof.
+    intros H1 H2. unfold impose_at. apply Nat.eqb_neq in H1. rewrite H1.
+    destruct ts as [|a [|b ts]]; simpl in *; auto; congruence.
+  Qed.
+
+  (* ---- impose_as: copy_to frame facts, and the exact relation when the groups do not interfere *)
+  Lemma copy_to_length i k (x : list E) : length (copy_to N i k x) = length x.
+  Proof. unfold copy_to. destruct (_ && _)%bool; auto. apply set_nth_length. Qed.
+  Lemma copy_to_other i k j (x : list E) d : j <> k -> nth j (copy_to N i k x) d = nth j x d.
+  Proof. intros H. unfold copy_to. destruct (_ && _)%bool; auto. apply nth_set_nth_neq. auto. Qed.
+  Lemma copy_to_hit i k (x : list E) : i < length x -> k < length x ->
+    nth k (copy_to N i k x) (zero N) = nth i x (zero N).
+  Proof.
+    intros Hi Hk. unfold copy_to.
+    assert (H : (Nat.ltb i (length x) && Nat.ltb k (length x))%bool = true)
+      by (apply andb_true_iff; split; apply Nat.ltb_lt; auto).
+    rewrite H. apply nth_set_nth_eq; auto.
+  Qed.
+
+  (* one group (leader, followers): afterwards every in-range follower equals the leader, the leader and all
+     non-followers are untouched *)
+  Lemma group_spec g : forall (x : list E), ~ In (fst g) (snd g) ->
+    let y := fold_left (fun z k => copy_to N (fst g) k z) (snd g) x in
+    length y = length x /\
+    (forall k, In k (snd g) -> fst g < length x -> k < length x -> nth k y (zero N) = nth (fst g) x (zero N)) /\
+    (forall j, ~ In j (snd g) -> nth j y (zero N) = nth j x (zero N)).
+  Proof.
+    destruct g as [i fs]. simpl. induction fs as [|a fs IH]; intros x Hni; simpl.
+    - split; auto. split; [intros k []|auto].
+    - assert (Hia : i <> a) by (intros ->; apply Hni; left; auto).
+      assert (Hni' : ~ In i fs) by (intros H; apply Hni; right; auto).
+      destruct (IH (copy_to N i a x) Hni') as [L [K1 K2]]. rewrite copy_to_length in L, K1. split; auto. split.
+      + intros k [<-|Hk] Hi Hlt.
+        * destruct (in_dec Nat.eq_dec a fs) as [I|I].
+          -- rewrite K1 by auto. apply copy_to_other. auto.
+          -- rewrite K2 by auto. apply copy_to_hit; auto.
+        * rewrite K1 by auto. apply copy_to_other. auto.
+      + intros j Hn. rewrite K2 by tauto. apply copy_to_other. intros ->. apply Hn. left; auto.
+  Qed.
+
+  (* several groups whose member sets are pairwise disjoint: every follower ends up equal to ITS leader's original
+     value, leaders and outsiders are untouched *)
+  Definition members (g : nat * list nat) : list nat := fst g :: snd g.
+  Lemma apply_groups_disjoint gs : forall (x : list E),
+    NoDup (flat_map members gs) ->
+    let y := apply_groups N gs x in
+    length y = length x /\
+    (forall g k, In g gs -> In k (snd g) -> fst g < length x -> k < length x -> nth k y (zero N) = nth (fst g) x (zero N)) /\
+    (forall j, ~ In j (flat_map snd gs) -> nth j y (zero N) = nth j x (zero N)).
+  Proof.
+    unfold apply_groups. induction gs as [|g gs IH]; intros x ND; simpl.
+    - split; auto. split; [intros g k []|auto].
+    - simpl in ND. unfold members in ND at 1. simpl in ND. inversion ND as [|? ? Hlead ND1]; subst.
+      pose proof (NoDup_app_r' _ _ ND1) as NDgs.
+      assert (Hni : ~ In (fst g) (snd g)) by (intros H; apply Hlead; apply in_or_app; auto).
+      destruct (group_spec g x Hni) as [L0 [G1 G2]].
+      set (x1 := fold_left (fun z k => copy_to N (fst g) k z) (snd g) x) in *.
+      destruct (IH x1 NDgs) as [L [K1 K2]]. rewrite L0 in L, K1. split; auto. split.
+      + intros g' k [<-|Hg] Hk Hl Hkl.
+        * rewrite K2; [apply G1; auto|]. intros Hin.
+          apply (NoDup_app_disj _ _ k ND1 Hk). apply in_flat_map in Hin. destruct Hin as [g2 [Hg2 Hk2]].
+          apply in_flat_map. exists g2. split; auto. right; auto.
+        * rewrite (K1 g' k Hg Hk Hl Hkl). apply G2. intros Hin.
+          apply (NoDup_app_disj _ _ (fst g') ND1 Hin). apply in_flat_map. exists g'. split; auto. left; auto.
+      + intros j Hn. rewrite K2 by (intros H; apply Hn; apply in_or_app; auto). apply G2. intros H; apply Hn; apply in_or_app; auto.
+  Qed.
+
+  Lemma leader_not_follower gs g g2 :
+    NoDup (flat_map members gs) -> In g gs -> In g2 gs -> ~ In (fst g) (snd g2).
+  Proof.
+    induction gs as [|h t IH]; intros ND Hg Hg2 Hin; [destruct Hg|]. cbn [flat_map] in ND.
+    destruct Hg as [->|Hg]; destruct Hg2 as [->|Hg2].
+    - apply NoDup_app_l' in ND. unfold members in ND. inversion ND; subst. auto.
+    - apply (NoDup_app_disj _ _ (fst g) ND); [left; auto|]. apply in_flat_map. exists g2. split; auto. right; auto.
+    - apply (NoDup_app_disj _ _ (fst g) ND); [right; auto|]. apply in_flat_map. exists g. split; auto. left; auto.
+    - apply (IH (NoDup_app_r' _ _ ND) Hg Hg2 Hin).
+  Qed.
+
+  (* tools.connected: every pair ends up inside one group (but groups are never merged) *)
+  Definition covered (gs : list (nat * list nat)) (p : nat * nat) : Prop :=
+    exists g, In g gs /\ in_group (fst p) g = true /\ in_group (snd p) g = true.
+  Lemma in_group_add_to i j g : in_group i g = true -> in_group i (add_to j g) = true.
+  Proof.
+    unfold in_group, add_to. destruct (memb j (snd g)); auto. simpl. rewrite !orb_true_iff, !memb_In, in_app_iff. tauto.
+  Qed.
+  Lemma in_group_add_to_self j g : in_group j (add_to j g) = true.
+  Proof.
+    unfold in_group, add_to. destruct (memb j (snd g)) eqn:M; [rewrite M; apply orb_true_r|].
+    simpl. rewrite orb_true_iff, memb_In, in_app_iff. simpl. auto.
+  Qed.
+  Lemma place_covers i j : forall gs gs', place i j gs = Some gs' ->
+    covered gs' (i, j) /\ forall p, covered gs p -> covered gs' p.
+  Proof.
+    induction gs as [|g gs IH]; intros gs' H; simpl in H; [discriminate|].
+    destruct (in_group i g) eqn:Gi.
+    - inversion H; subst. split.
+      + exists (add_to j g). split; [left; auto|]. simpl. split; [apply in_group_add_to; auto | apply in_group_add_to_self].
+      + intros p [g0 [[Eg|Hg] [A B]]]; [subst g0; exists (add_to j g) | exists g0].
+        * split; [left; auto|]. split; apply in_group_add_to; auto.
+        * split; [right; auto|auto].
+    - destruct (in_group j g) eqn:Gj.
+      + inversion H; subst. split.
+        * exists (add_to i g). split; [left; auto|]. simpl. split; [apply in_group_add_to_self | apply in_group_add_to; auto].
+        * intros p [g0 [[Eg|Hg] [A B]]]; [subst g0; exists (add_to i g) | exists g0].
+          -- split; [left; auto|]. split; apply in_group_add_to; auto.
+          -- split; [right; auto|auto].
+      + destruct (place i j gs) as [r'|] eqn:P; [|discriminate]. inversion H; subst.
+        destruct (IH r' eq_refl) as [C1 C2]. split.
+        * destruct C1 as [g0 [Hg AB]]. exists g0. split; [right; auto|auto].
+        * intros p [g0 [[Eg|Hg] AB]]; [subst g0; exists g; split; [left; auto|auto]|].
+          destruct (C2 p) as [g1 [Hg1 AB1]]; [exists g0; auto|]. exists g1. split; [right; auto|auto].
+  Qed.
+  Lemma connected_covers pairs : forall p, In p pairs -> covered (connected pairs) p.
+  Proof.
+    unfold connected.
+    assert (G : forall l gs p, (covered gs p \/ In p l) ->
+              covered (fold_left (fun gs p => match place (fst p) (snd p) gs with Some gs' => gs' | None => gs ++ [(fst p, [snd p])] end) l gs) p).
+    { induction l as [|q l IH]; intros gs p [H|H]; simpl; auto; [destruct H| |].
+      - apply IH. left. destruct (place (fst q) (snd q) gs) as [gs'|] eqn:P.
+        + apply (proj2 (place_covers _ _ _ _ P)); auto.
+        + destruct H as [g [Hg AB]]. exists g. split; auto. apply in_or_app; auto.
+      - destruct H as [<-|H]; [|apply IH; auto]. apply IH. left.
+        destruct (place (fst q) (snd q) gs) as [gs'|] eqn:P.
+        + destruct q as [a b]. apply (proj1 (place_covers _ _ _ _ P)).
+        + exists (fst q, [snd q]). split; [apply in_or_app; right; left; auto|].
+          unfold in_group; simpl. rewrite !Nat.eqb_refl. simpl. split; auto. apply orb_true_r. }
+    intros p Hp. apply G. auto.
+  Qed.
+
+  Lemma nodup_length_le (l : list nat) : length (nodup Nat.eq_dec l) <= length l.
+  Proof. induction l as [|a l IH]; simpl; auto. destruct (in_dec Nat.eq_dec a l); simpl; lia. Qed.
+  Lemma nodup_same_length (l : list nat) : length (nodup Nat.eq_dec l) = length l -> NoDup l.
+  Proof.
+    induction l as [|a l IH]; simpl; [constructor|].
+    destruct (in_dec Nat.eq_dec a l) as [I|I]; simpl; intros H.
+    - pose proof (nodup_length_le l). lia.
+    - constructor; auto.
+  Qed.
+
+  (* PARTIAL: the tie stage of impose_as makes x_i = x_j for EVERY pair of the mask provided tools.connected happened to
+     produce pairwise disjoint groups (it does not merge groups; see impose_as_ties_refuted in Properties_C11.v) *)
+  Theorem impose_as_ties_partial pairs (x : list E) :
+    groups_disjoint (connected pairs) = true ->
+    forall i j, In (i, j) pairs -> i < length x -> j < length x ->
+      (forall g, In g (connected pairs) -> fst g < length x) ->
+      nth i (apply_groups N (connected pairs) x) (zero N) = nth j (apply_groups N (connected pairs) x) (zero N).
+  Proof.
+    intros GD i j Hp Hi Hj Hlead.
+    assert (ND : NoDup (flat_map members (connected pairs))).
+    { unfold groups_disjoint in GD. apply Nat.eqb_eq in GD. apply nodup_same_length. exact GD. }
+    destruct (apply_groups_disjoint (connected pairs) x ND) as [L [K1 K2]].
+    destruct (connected_covers pairs (i, j) Hp) as [g [Hg [A B]]]. simpl in A, B.
+    assert (V : forall k, k < length x -> in_group k g = true ->
+                nth k (apply_groups N (connected pairs) x) (zero N) = nth (fst g) x (zero N)).
+    { intros k Hk G. unfold in_group in G. apply orb_true_iff in G. destruct G as [G|G].
+      - apply Nat.eqb_eq in G. subst k. apply K2. intros Hin. apply in_flat_map in Hin. destruct Hin as [g2 [Hg2 Hk2]].
+        exact (leader_not_follower _ _ _ ND Hg Hg2 Hk2).
+      - apply memb_In in G. apply K1; auto. }
+    rewrite (V i Hi A), (V j Hj B). reflexivity.
+  Qed.
+End ImposeFacts.
+
+(* ================================================================== composition of collapse rounds *)
+Section Compose.
+  Variable V : Type.
+  (* a relation on vectors (x_i = target, x_i = x_j, ...) and transformations that keep it *)
+  Variable Rel : V -> Prop.
+
+  (* the newest round acts first; its relation survives iff every OLDER transformation and the base constraints keep it *)
+  Theorem compose_rounds_preserves (c0 : xform V) (older : list (xform V)) (newest : xform V) :
+    (forall x, Rel (newest x)) ->
+    Forall (fun I => forall x, Rel x -> Rel (I x)) older ->
+    (forall x, Rel x -> Rel (c0 x)) ->
+    forall x, Rel (compose_rounds V c0 (older ++ [newest]) x).
+  Proof.
+    intros Hn Ho Hc x. unfold compose_rounds. apply Hc.
+    rewrite fold_right_app. simpl.
+    induction older as [|I older IH]; simpl; [apply Hn|].
+    inversion Ho; subst. apply H1. apply IH; auto.
+  Qed.
+
+  (* and rounds applied LATER in time (they act earlier on the candidate) never matter for an older round's relation *)
+  Theorem compose_rounds_older_relation (c0 : xform V) (before : list (xform V)) (I : xform V) (after : list (xform V)) :
+    (forall x, Rel (I x)) ->
+    Forall (fun J => forall x, Rel x -> Rel (J x)) before ->
+    (forall x, Rel x -> Rel (c0 x)) ->
+    forall x, Rel (compose_rounds V c0 (before ++ I :: after) x).
+  Proof.
+    intros Hn Ho Hc x. unfold compose_rounds. apply Hc.
+    rewrite fold_right_app. simpl.
+    induction before as [|J before IH]; simpl; [apply Hn|].
+    inversion Ho; subst. apply H1. apply IH; auto.
+  Qed.
+End Compose.
+
+(* frame instance: a transformation that does not write coordinate i keeps "x_i = t"; one that writes neither i nor j
+   keeps "x_i = x_j" *)
+Section Frames.
+  Variable N : Num.
+  Notation E := (T N).
+  Definition fixed_at (i : nat) (t : E) (x : list E) : Prop := nth i x (zero N) = t.
+  Definition tied (i j : nat) (x : list E) : Prop := nth i x (zero N) = nth j x (zero N).
+  Definition frames (W : list nat) (I : list E -> list E) : Prop :=
+    forall x j, ~ In j W -> nth j (I x) (zero N) = nth j x (zero N).
+
+  Lemma frames_keep_fixed W I i t : frames W I -> ~ In i W -> forall x, fixed_at i t x -> fixed_at i t (I x).
+  Proof. unfold frames, fixed_at. intros F Hi x H. rewrite F; auto. Qed.
+  Lemma frames_keep_tied W I i j : frames W I -> ~ In i W -> ~ In j W -> forall x, tied i j x -> tied i j (I x).
+  Proof. unfold frames, tied. intros F Hi Hj x H. rewrite !F; auto. Qed.
+
+  (* impose_at (scalar target) as a total vector function, its relation and its frame *)
+  Definition at_xform (idx : list nat) (t : E) (x : list E) : list E :=
+    fold_left (fun y i => set_nth N i t y) (filter (fun i => Nat.ltb i (length x)) idx) x.
+  Lemma at_xform_is_impose_at idx t x : impose_at N idx (AtScalar t) x = Ok (at_xform idx t x).
+  Proof. reflexivity. Qed.
+  Lemma at_xform_frames idx t : frames idx (at_xform idx t).
+  Proof.
+    intros x j Hj. destruct (impose_at_scalar_exact N idx t x (zero N)) as [y [E [_ K]]].
+    rewrite at_xform_is_impose_at in E. inversion E; subst. apply K; auto.
+  Qed.
+  Lemma at_xform_fixes idx t i x : In i idx -> i < length x -> fixed_at i t (at_xform idx t x).
+  Proof.
+    intros Hi Hl. destruct (impose_at_scalar_exact N idx t x (zero N)) as [y [E [_ K]]].
+    rewrite at_xform_is_impose_at in E. inversion E; subst. apply K; auto.
+  Qed.
+  Lemma at_xform_length idx t x : length (at_xform idx t x) = length x.
+  Proof.
+    destruct (impose_at_scalar_exact N idx t x (zero N)) as [y [E [L _]]].
+    rewrite at_xform_is_impose_at in E. inversion E; subst. auto.
+  Qed.
+End Frames.
+
+(* CollapseAt-only solver: rounds r1..rn with index sets that are pairwise disjoint (which the mask guarantees, see
+   collapse_at_never_reported_twice) and a base constraint that does not move collapsed coordinates:
+   EVERY applied relation x_i = t_k holds for every vector the composed constraints return. *)
+Section AtOnly.
+  Variable N : Num.
+  Notation E := (T N).
+  Variable c0 : list E -> list E.
+  Variable n : nat.
+  Hypothesis c0_length : forall x, length (c0 x) = length x.
+
+  Definition rounds_xforms (rs : list (list nat * E)) : list (xform (list E)) :=
+    map (fun r => at_xform N (fst r) (snd r)) rs.
+  Definition all_indices (rs : list (list nat * E)) : list nat := flat_map fst rs.
+
+  Lemma fold_rounds_length rs x : length (fold_right (fun I y => I y) x (rounds_xforms rs)) = length x.
+  Proof. induction rs as [|r rs IH]; simpl; auto. rewrite at_xform_length. auto. Qed.
+
+  Theorem at_only_all_rounds_exact (rs : list (list nat * E)) :
+    NoDup (all_indices rs) ->
+    frames N nil c0 \/ (forall x j, In j (all_indices rs) -> nth j (c0 x) (zero N) = nth j x (zero N)) ->
+    forall x k idx t i, nth_error rs k = Some (idx, t) -> In i idx -> i < length x ->
+      fixed_at N i t (compose_rounds _ c0 (rounds_xforms rs) x).
+  Proof.
+    intros ND Hc x k idx t i Hk Hi Hl. unfold compose_rounds.
+    assert (Hall : In i (all_indices rs)).
+    { unfold all_indices. apply in_flat_map. exists (idx, t). split; auto. eapply nth_error_In; eauto. }
+    assert (C : fixed_at N i t (fold_right (fun I y => I y) x (rounds_xforms rs))).
+    { clear Hc Hall. revert k Hk ND. induction rs as [|[idx' t'] rs IH]; intros k Hk ND; [destruct k; discriminate|].
+      simpl. destruct k as [|k]; simpl in Hk.
+      - inversion Hk; subst. apply at_xform_fixes; auto. rewrite fold_rounds_length. auto.
+      - unfold all_indices in ND. simpl in ND. pose proof (NoDup_app_r' _ _ ND) as ND'.
+        apply frames_keep_fixed with (W := idx').
+        + apply at_xform_frames.
+        + intros Hin. apply (NoDup_app_disj _ _ i ND Hin).
+          apply in_flat_map. exists (idx, t). split; auto. eapply nth_error_In; eauto.
+        + eapply IH; eauto. }
+    unfold fixed_at in *. destruct Hc as [Hc|Hc]; [rewrite Hc; auto | rewrite Hc; auto].
+  Qed.
+End AtOnly.
+
+(* ================================================================== the collapse loop of _Solve terminates *)
+Section LoopFacts.
+  Variables St C : Type.
+  Variable ceq : forall a b : C, {a = b} + {a <> b}.
+  Variable U : list C.                     (* the finite set of candidates: n indices, or n(n-1)/2 pairs *)
+  Variable inner : St -> list C -> St * list C.
+  Variable apply : St -> list C -> St.
+  Definition cnt (V : list C) (m : list C) : nat := length (filter (fun c => if in_dec ceq c m then false else true) V).
+  Definition unmasked (m : list C) : nat := cnt U m.
+
+  Lemma cnt_le V m m' : (forall c, In c m -> In c m') -> cnt V m' <= cnt V m.
+  Proof.
+    intros H. unfold cnt. induction V as [|a l IH]; simpl; auto.
+    destruct (in_dec ceq a m') as [I'|I']; destruct (in_dec ceq a m) as [I|I]; simpl.
+    - exact IH.
+    - lia.
+    - exfalso. apply I'. apply H. exact I.
+    - lia.
+  Qed.
+  Lemma cnt_lt V m m' c : (forall c, In c m -> In c m') -> In c V -> ~ In c m -> In c m' -> cnt V m' < cnt V m.
+  Proof.
+    intros H Hu Hn Hm'. induction V as [|a l IH]; simpl; [destruct Hu|].
+    pose proof (cnt_le l m m' H) as L. unfold cnt in *. simpl.
+    destruct Hu as [<-|Hu].
+    - destruct (in_dec ceq a m') as [I'|I']; [|tauto]. destruct (in_dec ceq a m) as [I|I]; [tauto|]. simpl. lia.
+    - specialize (IH Hu). destruct (in_dec ceq a m') as [I'|I']; destruct (in_dec ceq a m) as [I|I]; simpl.
+      + exact IH.
+      + lia.
+      + exfalso. apply I'. apply H. exact I.
+      + lia.
+  Qed.
+  Lemma cnt_bound V m : cnt V m <= length V.
+  Proof. unfold cnt. induction V as [|a l IH]; simpl; auto. destruct (in_dec ceq a m); simpl; lia. Qed.
+  Lemma unmasked_le m m' : (forall c, In c m -> In c m') -> unmasked m' <= unmasked m.
+  Proof. apply cnt_le. Qed.
+  Lemma unmasked_lt m m' c : (forall c, In c m -> In c m') -> In c U -> ~ In c m -> In c m' -> unmasked m' < unmasked m.
+  Proof. apply cnt_lt. Qed.
+
+  (* what the detector theorems give: everything reported is a candidate and is not in the mask *)
+  Hypothesis reported_fresh : forall s m c, In c (snd (inner s m)) -> In c U /\ ~ In c m.
+
+  (* measure: the number of unmasked candidates strictly decreases in every round that applies a collapse *)
+  Theorem collapse_round_decreases s m :
+    snd (inner s m) <> [] -> unmasked (extend_mask m (snd (inner s m))) < unmasked m.
+  Proof.
+    intros Hne. destruct (snd (inner s m)) as [|c r] eqn:E; [congruence|].
+    assert (Hc : In c (snd (inner s m))) by (rewrite E; left; auto).
+    destruct (reported_fresh s m c Hc) as [Hu Hn].
+    apply unmasked_lt with (c := c); auto.
+    - intros x Hx. apply extend_mask_In. auto.
+    - apply extend_mask_In. right. left. auto.
+  Qed.
+
+  Theorem collapse_loop_terminates : forall fuel s m, unmasked m < fuel ->
+    exists s' m' k, solve_loop St C inner apply fuel s m = Some (s', m', k) /\ k <= unmasked m /\
+                    (forall c, In c m -> In c m') /\ exists s0, inner s0 m' = (s', []).
+  Proof.
+    induction fuel as [|f IH]; intros s m Hf; [lia|].
+    simpl. destruct (inner s m) as [s1 r] eqn:E. destruct r as [|c r].
+    - exists s1, m, 0. split; auto. split; [lia|]. split; auto. exists s. exact E.
+    - pose proof (collapse_round_decreases s m) as D. rewrite E in D. simpl in D.
+      assert (D' : unmasked (extend_mask m (c :: r)) < unmasked m) by (apply D; discriminate).
+      destruct (IH (apply s1 (c :: r)) (extend_mask m (c :: r))) as (s' & m' & k & R & K & Hm & Hlast); [lia|].
+      rewrite R. exists s', m', (S k). split; auto. split; [lia|]. split; auto.
+      intros x Hx. apply Hm. apply extend_mask_In. auto.
+  Qed.
+
+  (* in particular |U| + 1 rounds of fuel always suffice, whatever the inner solver does *)
+  Corollary collapse_loop_terminates_within_candidates s m :
+    exists s' m' k, solve_loop St C inner apply (S (length U)) s m = Some (s', m', k) /\ k <= length U.
+  Proof.
+    assert (B : unmasked m <= length U) by apply cnt_bound.
+    destruct (collapse_loop_terminates (S (length U)) s m) as (s' & m' & k & R & K & _); [lia|].
+    exists s', m', k. split; auto. lia.
+  Qed.
+End LoopFacts.
+
+(* ================================================================== concrete witnesses (executed on the exact-rational instance) *)
+From Coq Require Import QArith.
+Open Scope Q_scope.
+
+(* tools.connected does not merge groups: impose_as({(0,1),(2,4),(0,4)}) leaves x0 <> x4 *)
+Lemma impose_as_ties_witness :
+  let pairs := [(0, 1); (2, 4); (0, 4)]%nat in
+  let x := [10; 20; 30; 40; 50] : list Q in
+  impose_as NumQ pairs 0 x = Some [10 + 0; 10 + 0 + 0; 30; 40; 30 + 0 + 0] /\
+  apply_groups NumQ (connected pairs) x = [10; 10; 30; 40; 30] /\
+  groups_disjoint (connected pairs) = false.
+Proof. vm_compute. repeat split. Qed.
+Lemma impose_as_ties_refuted_lemma :
+  exists (pairs : list (nat * nat)) (x : list Q) (i j : nat),
+    In (i, j) pairs /\ (i < length x)%nat /\ (j < length x)%nat /\
+    nth i (apply_groups NumQ (connected pairs) x) 0 <> nth j (apply_groups NumQ (connected pairs) x) 0.
+Proof.
+  exists [(0, 1); (2, 4); (0, 4)]%nat, [10; 20; 30; 40; 50], 0%nat, 4%nat.
+  split; [right; right; left; reflexivity|]. split; [simpl; lia|]. split; [simpl; lia|].
+  vm_compute. discriminate.
+Qed.
+
+(* composition: the NEWEST round fixes x1 = 0, an OLDER CollapseAs round (x1 := x0) acts after it and overwrites it *)
+Lemma compose_overwrites_refuted_lemma :
+  exists (older newest : xform (list Q)) (x : list Q),
+    (forall y, (1 < length y)%nat -> fixed_at NumQ 1 0 (newest y)) /\
+    ~ fixed_at NumQ 1 0 (compose_rounds _ (fun y => y) [older; newest] x).
+Proof.
+  exists (fun y => apply_groups NumQ (connected [(0, 1)]%nat) y), (at_xform NumQ [1%nat] 0), [5; 7].
+  split.
+  - intros y Hy. apply at_xform_fixes; simpl; auto.
+  - unfold fixed_at. vm_compute. discriminate.
+Qed.
+
+(* CollapseAt(target=[t0,t1]) collapsing only index 0: Collapse hands impose_at the FULL list -> numpy shape mismatch *)
+Lemma collapse_list_target_witness : impose_at NumQ [0%nat] (@AtList NumQ [1; 2]) [5; 6] = Err ErrValue.
+Proof. reflexivity. Qed.
+
+(* CollapseAs(offset=True) imposes x_j = x_i + True, not the offset that was observed (here 3) *)
+Lemma offset_true_witness : impose_as NumQ [(0, 1)%nat] 1 [5; 8] = Some [5; 5 + 1].
+Proof. vm_compute. reflexivity. Qed.
+
+(* non-vacuity witnesses *)
+Example detector_example :
+  collapse_at NumQ [[1; 2; 5]; [1; 3; 5]; [1; 2; 5 + (1 # 8)]] (@TNone NumQ) (1 # 8) None (MaSet [2%nat]) = Ok [0%nat] /\
+  collapse_at NumQ [[1; 2; 5]; [1; 3; 5]; [1; 2; 5 + (1 # 8)]] (@TNone NumQ) (1 # 8) None MaNone = Ok [0%nat; 2%nat] /\
+  collapse_as NumQ [[1; 1; 5]; [2; 2; 5]] false 0 (Some 1%Z) (MsSet [MInt 2]) = Ok [(0, 1)%nat] /\
+  term_at NumQ 3 [[1; 2]; [1; 3]; [1; 4]] (@TScalar NumQ 1) 0 (Some 2%Z) MaNone = Ok (Some [0%nat]) /\
+  term_at NumQ 2 [[1; 2]; [1; 3]] (@TScalar NumQ 1) 0 (Some 2%Z) MaNone = Ok None.
+Proof. vm_compute. repeat split. Qed.
+
+Example loop_example :
+  (* a toy inner solver over candidates {0,1,2}: reports the smallest unmasked candidate until none is left *)
+  let inner := fun (s : nat) (m : list nat) =>
+     (S s, match filter (fun c => negb (memb c m)) [0; 1; 2]%nat with [] => [] | c :: _ => [c] end) in
+  solve_loop nat nat inner (fun s _ => s) 4 0%nat [] = Some (4%nat, [0; 1; 2]%nat, 3%nat).
+Proof. vm_compute. reflexivity. Qed.
